@@ -1121,6 +1121,13 @@ def call_method(ev, recv, name, args, kwargs, node):
 
 def _idx_disjoint(i, j):
     """Provably different constant index tuples."""
+    if isinstance(i, Tup) and isinstance(j, Tup) and len(i.items) != len(j.items) and i.items and j.items \
+            and i.items[0] == Const(Ellipsis) and j.items[0] == Const(Ellipsis):
+        # both anchored at the end: compare the trailing positions
+        for a, b in zip(reversed(i.items[1:]), reversed(j.items[1:])):
+            if is_const(a) and is_const(b) and isinstance(const_of(a), int) and isinstance(const_of(b), int) and const_of(a) != const_of(b):
+                return True
+        return False
     if isinstance(i, Tup) and isinstance(j, Tup) and len(i.items) == len(j.items):
         for a, b in zip(i.items, j.items):
             if is_const(a) and is_const(b) and isinstance(const_of(a), int) and isinstance(const_of(b), int) and const_of(a) != const_of(b):
@@ -1129,6 +1136,21 @@ def _idx_disjoint(i, j):
     if is_const(i) and is_const(j) and isinstance(const_of(i), int) and isinstance(const_of(j), int):
         return const_of(i) != const_of(j)
     return False
+
+
+def _slab_read(sidx, ridx):
+    """store index (Ellipsis, c1..ck) of constants vs read index (Ellipsis, j, c1..ck): the read addresses element j of the
+    last axis of the stored value; returns the index into the stored value, else None."""
+    if not (isinstance(sidx, Tup) and isinstance(ridx, Tup)):
+        return None
+    s, r = list(sidx.items), list(ridx.items)
+    if not s or not r or s[0] != Const(Ellipsis) or r[0] != Const(Ellipsis) or len(r) != len(s) + 1:
+        return None
+    if any(not (is_const(x) and isinstance(const_of(x), int)) for x in s[1:]):
+        return None
+    if r[2:] != s[1:]:
+        return None
+    return Tup([Const(Ellipsis), r[1]])
 
 
 def getitem(ev, base, idx, node=None):
@@ -1197,12 +1219,23 @@ def getitem(ev, base, idx, node=None):
         _raw_sequence_use(ev, base, "[%s]" % idx.key[:30], node)
     # read through store chains
     b = base
-    while isinstance(b, App) and b.fn == "store":
+    while isinstance(b, App) and b.fn in ("store", "carried"):
+        if b.fn == "carried":
+            inner = b.args[0]
+            # a read through the loop-carried wrapper of a slab written before the loop (see below) looks through the wrapper
+            if isinstance(inner, App) and inner.fn == "store" and _slab_read(inner.args[1], idx) is not None:
+                b = inner
+                continue
+            break
         if b.args[1] == idx:
             return b.args[2]
         if _idx_disjoint(b.args[1], idx):
             b = b.args[0]
             continue
+        sl = _slab_read(b.args[1], idx)
+        if sl is not None and isinstance(b.args[2], V):
+            # the store wrote a whole slab  B[..., a, b] = V  (V has one more trailing axis); B[..., j, a, b] reads V[..., j]
+            return getitem(ev, b.args[2], sl, node)
         return App("getitem", (base, idx))
     if b is not base:
         base = b
